@@ -37,6 +37,8 @@ KEYFNS = {
     'const': (lambda: Val('c'), lambda x: 'c'),
     'skip2': (lambda: (lambda x: SKIP if x == 2 else x % 2), lambda x: rSKIP if x == 2 else x % 2),
     'len': (lambda: len, lambda x: len(x)),
+    'type': (lambda: type, lambda x: type(x)),              # bucket keys that are classes (dict, list among them)
+    'isnone': (lambda: (lambda x: x is None), lambda x: x is None),
 }
 VALFNS = {
     'T': (lambda: T, lambda x: x),
@@ -291,6 +293,11 @@ def mk_items(kind, seq):
     if kind == 'tuples':
         menu = [(1,), (2, 3), (), (4, 5, 6)]
         return [menu[i] for i in seq]
+    if kind == 'anytype':
+        # items of several types incl. containers: keyed by type() the bucket keys are the classes dict and list themselves
+        return [[1, 'a', [1], {'a': 1}][i] for i in seq]
+    if kind == 'withnone':
+        return [[None, 3, None, 4][i] for i in seq]      # None is an item like any other, also as the FIRST one
     if kind == 'mixed':
         # equal values of different types (1, 1.0, True) and an unordered one (NaN): min / max must return what Python's min() / max() return
         return [[1, 1.0, True, NAN][i] for i in seq]
@@ -370,6 +377,13 @@ def gen_specs(tier):
     for k1, k2, k3 in itertools.product(['mod2', 'mod3'] if tier == 'quick' else ['mod2', 'mod3', 'skip2'], repeat=3):
         for leaf in INT_LEAVES:
             specs.append(('ints', ['dict', k1, ['dict', k2, ['dict', k3, leaf]]]))
+    for leaf in (['list', 'T'], ['agg', 'count'], ['agg', 'first']):
+        specs.append(('anytype', ['dict', 'type', leaf]))
+        specs.append(('anytype', ['dict', 'type', ['dict', 'type', leaf]]))
+        specs.append(('anytype', ['dict', 'const', ['dict', 'type', leaf]]))
+        specs.append(('withnone', leaf))
+        specs.append(('withnone', ['dict', 'isnone', leaf]))
+        specs.append(('withnone', ['limit', 2, leaf if leaf[0] == 'list' else None]))
     for leaf in (['agg', 'min'], ['agg', 'max'], ['agg', 'first'], ['list', 'T']):
         specs.append(('mixed', leaf))
         specs.append(('mixed', ['dict', 'const', leaf]))
